@@ -49,7 +49,10 @@ def main():
         if act == "gen":
             r = a["req"]
             try:
-                pr = make_problem(parse_assignment(r["text"]).unwrap(), {n: parse_format(f).unwrap() for n, f in r["formats"]}).unwrap()
+                # "unmentioned tensors dense": with omit_dense the all-dense natural formats are simply not given
+                given = [(n, f) for n, f in r["formats"]
+                         if not (a.get("omit_dense") and "s" not in f and f == "".join(f"d{i}" for i in range(f.count("d"))))]
+                pr = make_problem(parse_assignment(r["text"]).unwrap(), {n: parse_format(f).unwrap() for n, f in given}).unwrap()
                 res = generate_code(pr, [KernelType[k] for k in r["kinds"]], Language[r["lang"]])
                 digest = sha(res.unwrap().rstrip("\n")) if isinstance(res, Success) else "REFUSED"
             except Exception as e:  # noqa: BLE001
